@@ -1,6 +1,9 @@
 // E0 interpreter harness for C03: builds *runtime* sender pipelines from a term string and runs
-// them on pika's own sender adaptors (PIKA_WITH_STDEXEC=OFF).  No pika runtime is started; every
-// pipeline completes inline on the calling OS thread.  All stages are type-erased into
+// them on pika's own sender adaptors (PIKA_WITH_STDEXEC=OFF).  Without a pool scheduler in the term
+// no pika runtime is started and the pipeline completes inline on the calling OS thread; a term
+// that uses scheduler `p` (pika's thread_pool_scheduler) starts the runtime (2 workers) in the
+// case's child process, completions then arrive on worker threads and the main thread waits for
+// the runtime to become idle (state based, no timeout) before it prints `count` and the ledger.  All stages are type-erased into
 // unique_any_sender<V>, V = std::vector<P>, P = ledger-instrumented payload.
 //
 // Build (from the framework root):
@@ -16,6 +19,11 @@
 
 #include <pika/execution.hpp>
 #include <pika/execution_base/any_sender.hpp>
+#include <pika/init.hpp>
+
+#include <atomic>
+#include <mutex>
+#include <thread>
 
 #include <cstdarg>
 #include <exception>
@@ -58,6 +66,7 @@ static long long code_of(std::exception_ptr const& ep)
 // ---------------------------------------------------------------- LEDGER
 struct ledger_t
 {
+    std::mutex m;    // pool cases: payloads are created and destroyed on worker threads as well
     std::unordered_set<void const*> live;
     long ctor = 0, dtor = 0, bad = 0;
 };
@@ -71,11 +80,13 @@ struct P
     long long v;
     void reg()
     {
+        std::lock_guard<std::mutex> g(L().m);
         if (!L().live.insert(this).second) L().bad++;    // constructed over a live object
         L().ctor++;
     }
     static void chk(P const* p)
     {
+        std::lock_guard<std::mutex> g(L().m);
         if (!L().live.count(p)) L().bad++;
     }
     P(long long x = 0) : v(x) { reg(); }
@@ -85,6 +96,7 @@ struct P
     P& operator=(P&& o) noexcept { return chk(&o), chk(this), v = o.v, *this; }
     ~P()
     {
+        std::lock_guard<std::mutex> g(L().m);
         if (!L().live.erase(this)) L().bad++;
         L().dtor++;
     }
@@ -122,7 +134,7 @@ struct Node
     std::string op;
     std::vector<long long> ints;
     Fn f;
-    char s = 'v';    // scheduler completion: v | e | s
+    char s = 'v';    // scheduler: inline completing with v | e | s, or p = thread_pool_scheduler
     long long scode = 0;
     std::vector<Node> kids;
 };
@@ -189,7 +201,7 @@ struct parser
     void sched(Node& n)
     {
         std::string k = ident();
-        if (k == "v" || k == "s") n.s = k[0];
+        if (k == "v" || k == "s" || k == "p") n.s = k[0];
         else if (k == "e")
         {
             expect(':');
@@ -218,7 +230,18 @@ struct parser
                 n.kids.push_back(term());
             }
         }
-        else if (o == "dv" || o == "un" || o == "sp" || o == "es") n.kids.push_back(term());
+        else if (o == "dv" || o == "un" || o == "sp" || o == "es" || o == "rs" || o == "dos")
+            n.kids.push_back(term());
+        else if (o == "sd") sched(n);
+        else if (o == "bulk")
+        {
+            n.ints.push_back(integer());
+            if (n.ints[0] < 0 || n.ints[0] > 4) fail("bulk shape must be 0..4");
+            expect(',');
+            n.f = fn();
+            expect(',');
+            n.kids.push_back(term());
+        }
         else if (o == "co")
         {
             sched(n);
@@ -473,8 +496,26 @@ static snd build(Node const& n, env_t env)
         }) | ex::unpack() |
             ex::then([](V a, V b) { return cat(std::move(a), b); });
     if (o == "co")
+    {
+        if (n.s == 'p') return ex::continues_on(build(n.kids[0], env), ex::thread_pool_scheduler{});
         return ex::continues_on(build(n.kids[0], env), inline_scheduler{n.s, n.scode});
-    if (o == "tj") return ex::transfer_just(inline_scheduler{n.s, n.scode}, mk(n.ints));
+    }
+    if (o == "tj")
+    {
+        if (n.s == 'p') return ex::transfer_just(ex::thread_pool_scheduler{}, mk(n.ints));
+        return ex::transfer_just(inline_scheduler{n.s, n.scode}, mk(n.ints));
+    }
+    if (o == "sd")
+    {
+        if (n.s == 'p') return ex::schedule(ex::thread_pool_scheduler{}) | ex::then([] { return V{}; });
+        return ex::schedule(inline_scheduler{n.s, n.scode}) | ex::then([] { return V{}; });
+    }
+    if (o == "bulk")    // every stage is erased, so no completion scheduler: the generic fallback
+        return build(n.kids[0], env) | ex::bulk(int(n.ints[0]), [np](int i, V& v) {
+            v = apply(np->f, cat(v, V{P(i)}));
+        });
+    if (o == "rs") return ex::require_started(build(n.kids[0], env));
+    if (o == "dos") return ex::drop_operation_state(build(n.kids[0], env));
     if (o == "wa")
     {
         switch (n.kids.size())
@@ -508,7 +549,7 @@ static snd build(Node const& n, env_t env)
 }
 
 // ---------------------------------------------------------------- CONSUMERS
-static int g_calls = 0;
+static std::atomic<int> g_calls{0};
 static void release_op();
 struct term_recv
 {
@@ -542,6 +583,27 @@ static void release_op()
     g_op = nullptr;
 }
 
+static bool uses_pool(Node const& n)
+{
+    if (n.s == 'p') return true;
+    for (auto const& k : n.kids)
+        if (uses_pool(k)) return true;
+    return false;
+}
+// pool cases: wait until the runtime is idle (every task, including the tail of the task that made
+// the completion call, has finished).  State based; repeated because idleness is only a snapshot.
+static void quiesce(bool pool, bool need_signal)
+{
+    if (!pool) return;
+    for (int i = 0; i < 1000; ++i)
+    {
+        pika::wait();
+        if (!need_signal || g_calls.load() > 0) break;
+        std::this_thread::yield();
+    }
+    pika::wait();
+}
+
 static void run_one(case_t const& c)
 {
     std::string term = c.gets("term"), consumer = c.gets("consumer", "recv");
@@ -560,13 +622,20 @@ static void run_one(case_t const& c)
         out("end ok");
         return;
     }
+    bool const pool = uses_pool(root);
+    if (pool)
+    {
+        char const* argv[] = {"e0", "--pika:threads=2", "--pika:bind=none", nullptr};
+        pika::start(nullptr, 3, argv);
+    }
     {
         auto make = [&] { return probe{build(root, std::make_shared<V const>())}; };
         if (consumer == "recv")
         {
             g_op = new auto(ex::connect(make(), term_recv{}));
             ex::start(*g_op);
-            out("count %d", g_calls);
+            quiesce(pool, true);
+            out("count %d", g_calls.load());
             if (g_calls == 0)    // never completed: releasing an unfinished operation is legal
             {
                 delete g_op;
@@ -576,6 +645,7 @@ static void run_one(case_t const& c)
         else if (consumer == "detached")
         {
             ex::start_detached(make());    // error completion terminates by design
+            quiesce(pool, false);
             out("count 1");
         }
         else
@@ -583,10 +653,12 @@ static void run_one(case_t const& c)
             try
             {
                 V r = tt::sync_wait(make());    // stopped terminates by design
+                quiesce(pool, false);
                 out("ret value%s", show(r).c_str());
             }
             catch (verif_exc const& e)
             {
+                quiesce(pool, false);
                 out("ret error %lld", e.code);
             }
             catch (...)
